@@ -395,3 +395,63 @@ prop("C19",
      "Bounded depth/threads/polls; static lines restored between executions by the harness.",
      "explicit enumeration of operation sequences + stateless model checking (deviation-bounded DFS with reads-from choices)",
      "DESIGN.md 4/C19")
+
+
+prop("C20",
+     [dict(name="C20", src="C20.cpp", cxxflags=LOCK_FLAGS, deadline=dict(quick=100, thorough=1500))],
+     "Fault enumeration layered on the schedule explorer: user code (modify/read functors - at entry and half-way "
+     "through their update -, predicates, callbacks, the payload's copy constructor / assignment / comparison) "
+     "calls may_throw(site); for each program the fault-free exploration first measures the number of calls per "
+     "site over all schedules, then EVERY plan 'the n-th call of site s throws' is explored (thorough: every pair "
+     "of such faults), each with all interleavings up to the deviation bound. Programs: lr_guarded writers with "
+     "throwing functors against readers; guarded / guarded_opt / ordered_guarded / atomic_guarded operation pairs "
+     "with throwing copy/assign/compare/functor; cow_guarded writers with a throwing copy constructor; "
+     "deferred_guarded submitters (direct and queued path, detach and async) with throwing functors against "
+     "readers; DelayedDestructor with a throwing callback; SearchableObjectHolder with throwing predicates.",
+     "Oracles: exceptions appear where documented and nowhere else (std::terminate = abort = violation); after "
+     "the throw the throwing thread holds no lock of the wrapper, the mutex is free at the end and every other "
+     "thread and a final acquisition proceed (deadlock / livelock detector); wrapped object never half-modified "
+     "by the wrapper (payload operations throw before mutating); lr_guarded: final value = number of modifications "
+     "whose first application completed, readers monotone and never torn, both copies agree; histories with failed "
+     "operations stay linearizable (a failed operation has no effect; exchange may have written); cow: final = "
+     "successful commits and a later writer completes; deferred: every accepted functor runs exactly once and in "
+     "order, futures hold value or exception; DelayedDestructor: objects destroyed once, container usable; SOH: "
+     "map unchanged by the failed call.",
+     A_COMMON + [A_MM],
+     "Exhaustive enumeration of single (thorough: double) fault plans x exhaustive deviation-bounded exploration "
+     "of interleavings over the real wrappers.",
+     "Bounded programs; payload test doubles give the strong guarantee themselves; the library-documented "
+     "indeterminate case (assignment throwing inside lr_guarded's own roll-back copy) is excluded.",
+     "fault-plan enumeration + stateless model checking (deviation-bounded DFS) of the implementation",
+     "DESIGN.md 4/C20")
+
+
+prop("C07",
+     [dict(name="C07pub", src="C07.cpp", cxxflags=LOCK_FLAGS, deadline=dict(quick=60, thorough=600), required_cover=2),
+      dict(name="C03", src="C03.cpp", deadline=dict(quick=60, thorough=600), args=dict(quick=["--rbound", "2"], thorough=["--rbound", "3"])),
+      dict(name="C19", src="C19.cpp", cxxflags=LOCK_FLAGS, deadline=dict(quick=60, thorough=600), args=dict(quick=["--rbound", "2"], thorough=["--rbound", "3"])),
+      dict(name="C05", src="rcu.cpp", cxxflags=["-DMODE_C05"], deadline=dict(quick=60, thorough=900),
+           args=dict(quick=["--rbound", "2", "--max-items", "6"], thorough=["--rbound", "2"])),
+      dict(name="C10", src="C10.cpp", deadline=dict(quick=30, thorough=300), args=dict(quick=["--max-items", "150"], thorough=[]))],
+     SCHED_RULE + " Publication programs, one or more per protocol (guarded / shared_guarded / ordered_guarded "
+     "handles and functors for several mutex types, lr_guarded, cow_guarded, deferred_guarded, rcu_list push / "
+     "emplace vs traversal vs erase, Latch, Barrier over two generations, TriggerVariable trigger and activation, "
+     "TripWire, atomic_guarded, DelayedObjects futures): thread A writes plain data then performs the publishing "
+     "operation, thread B performs the observing operation and reads the data plainly. In addition the lr_guarded "
+     "(C03), TripWire (C19), rcu (C05, first programs in the quick tier) and Latch (C10) program sets are re-run "
+     "with a larger stale-read budget. Every other check also runs the same race detector on every execution.",
+     "Oracles: vector-clock happens-before race detector over every instrumented plain access to arena memory "
+     "(wrapped objects, library internals, published data), with happens-before edges only from what the C++ "
+     "model grants for the memory orders written in the source (mutex/rwlock release->acquire, release "
+     "sequences, acquire loads reading them, spawn/join); non-seq_cst loads choose among all stores the "
+     "operational C++11 model allows (coherence, happens-before visibility, SC floor) and weak CAS may fail "
+     "spuriously; the functional oracles of the re-run harnesses must still hold under those stale reads; "
+     "published data must be visible after the observing operation. For all-seq_cst protocols race freedom in all "
+     "SC executions implies only SC executions exist (DRF-SC). Not reachable: load-buffering / out-of-thin-air "
+     "executions (A4).",
+     A_COMMON + [A_MM],
+     "Exhaustive deviation-bounded exploration of interleavings AND reads-from choices with a vector-clock race "
+     "detector, over publication programs for every protocol plus the lock-free protocol harnesses.",
+     "Operational fragment of the C++11 model; accesses inside libstdc++.so are not instrumented (A2).",
+     "stateless model checking (deviation-bounded DFS with reads-from choices) + vector-clock data-race detection",
+     "DESIGN.md 4/C07")
